@@ -27,6 +27,38 @@ def valOf (r : NavRec) (k : String) : Option Cell := ((kvOf r).find? (·.1 = k))
 /-- the value record `r` prints for column `k` (`None` for a name no record feeds) -/
 def valD (r : NavRec) (k : String) : Cell := (valOf r k).getD .none
 
+/-- `valD` without building the record's whole value list for every cell -/
+def valFast (r : NavRec) (k : String) : Cell :=
+  match k with
+  | "system" => .str [r.sys] | "satellite" => .str (satName r.sys r.prn)
+  | "sat_clock_bias" => .num r.c1.val | "sat_clock_drift" => .num r.c2.val | "sat_clock_drift_rate" => .num r.c3.val
+  | "iode" => .num r.o1.a.val | "crs" => .num r.o1.b.val | "delta_n" => .num r.o1.c.val | "m0" => .num r.o1.d.val
+  | "cuc" => .num r.o2.a.val | "e" => .num r.o2.b.val | "cus" => .num r.o2.c.val | "sqrt_a" => .num r.o2.d.val
+  | "toe" => .num r.o3.a.val | "cic" => .num r.o3.b.val | "Omega" => .num r.o3.c.val | "cis" => .num r.o3.d.val
+  | "i0" => .num r.o4.a.val | "crc" => .num r.o4.b.val | "omega" => .num r.o4.c.val | "Omega_dot" => .num r.o4.d.val
+  | "idot" => .num r.o5.a.val | "gnss_data_info" => .num r.o5.b.val | "gnss_week" => .num r.o5.c.val | "gnss_l2p_flag" => .num r.o5.d.val
+  | "sv_accuracy" => .num r.o6.a.val | "sv_health" => .num r.o6.b.val | "gnss_tgd_bgd" => .num r.o6.c.val
+  | "gnss_iodc_groupdelay" => .num r.o6.d.val
+  | "transmission_time" => .num r.o7.a.val | "gnss_interval" => .num r.o7.b.val
+  | _ => .none
+
+theorem valFast_eq (r : NavRec) (k : String) : valD r k = valFast r k := by
+  unfold valFast
+  split
+  all_goals first
+    | rfl
+    | skip
+  rename_i h1 h2 h3 h4 h5 h6 h7 h8 h9 h10 h11 h12 h13 h14 h15 h16 h17 h18 h19 h20 h21 h22 h23 h24 h25 h26 h27 h28 h29 h30 h31
+  simp only [valD, valOf, kvOf, orbitVals, Spec.RinexNav.orbitNames, List.flatten, List.zip, List.zipWith, List.map, List.append,
+    List.cons_append, List.nil_append, List.find?]
+  simp only [decide_eq_false (fun e => h1 (Eq.symm e)), decide_eq_false (fun e => h2 (Eq.symm e)), decide_eq_false (fun e => h3 (Eq.symm e)), decide_eq_false (fun e => h4 (Eq.symm e)), decide_eq_false (fun e => h5 (Eq.symm e)), decide_eq_false (fun e => h6 (Eq.symm e)), decide_eq_false (fun e => h7 (Eq.symm e)), decide_eq_false (fun e => h8 (Eq.symm e)), decide_eq_false (fun e => h9 (Eq.symm e)), decide_eq_false (fun e => h10 (Eq.symm e)), decide_eq_false (fun e => h11 (Eq.symm e)), decide_eq_false (fun e => h12 (Eq.symm e)), decide_eq_false (fun e => h13 (Eq.symm e)), decide_eq_false (fun e => h14 (Eq.symm e)), decide_eq_false (fun e => h15 (Eq.symm e)), decide_eq_false (fun e => h16 (Eq.symm e)), decide_eq_false (fun e => h17 (Eq.symm e)), decide_eq_false (fun e => h18 (Eq.symm e)), decide_eq_false (fun e => h19 (Eq.symm e)), decide_eq_false (fun e => h20 (Eq.symm e)), decide_eq_false (fun e => h21 (Eq.symm e)), decide_eq_false (fun e => h22 (Eq.symm e)), decide_eq_false (fun e => h23 (Eq.symm e)), decide_eq_false (fun e => h24 (Eq.symm e)), decide_eq_false (fun e => h25 (Eq.symm e)), decide_eq_false (fun e => h26 (Eq.symm e)), decide_eq_false (fun e => h27 (Eq.symm e)), decide_eq_false (fun e => h28 (Eq.symm e)), decide_eq_false (fun e => h29 (Eq.symm e)), decide_eq_false (fun e => h30 (Eq.symm e)), decide_eq_false (fun e => h31 (Eq.symm e))]
+  rfl
+
+/-- the compiled code evaluates `valFast` wherever the definitions say `valD` -/
+@[csimp] theorem valD_eq_valFast : @valD = @valFast := by
+  funext r k
+  exact valFast_eq r k
+
 /-- the columns after reading: column `k` holds `valD r k` for every supported record `r` -/
 def sem0 : String → Option (NavRec → Cell) := fun k => if k ∈ recordNames v3 then some (fun r => valD r k) else Option.none
 
